@@ -1,7 +1,8 @@
 (* C18 — Concurrent transactions do not corrupt or share engine state (PARTIAL).
    Final statements only. *)
-From Coq Require Import List Arith Bool String ZArith.
-From Verif Require Import C18.Lockset C18.Trace C18.Discipline C18.Accesses C18.Expected C18.Model.
+From Coq Require Import List Arith Bool String ZArith Lia.
+From Verif Require Import C18.Lockset C18.Trace C18.Discipline C18.Publication C18.Accesses C18.Expected
+  C18.Model C18.Isolation.
 Import ListNotations.
 Local Open Scope list_scope.
 
@@ -27,7 +28,13 @@ Print Assumptions C18_tree_racy_fields.
 (* 3. Hence every trace whose accesses are instances of the translated facts
    (same role, same field and kind, the fact's locks really held) is free of data
    races on every field outside the recorded ones: conflicting accesses of
-   different goroutines are always ordered by happens-before. *)
+   different goroutines are always ordered by happens-before.
+   FIRST discipline, kept as it was: one role per goroutine for its whole life, and
+   the two role hypotheses exclude every goroutine in a role "init" or "load" (H1)
+   and a second goroutine of any role outside [multi_roles] (H2; every bg: role is
+   computed into [multi_roles] now). The goroutine that builds a new engine is
+   therefore NOT covered here: see C18_tree_race_free_pub below, which replaces H1
+   by "start-up is over" and the quiet "load" role by the publication protocol. *)
 Theorem C18_tree_race_free :
   forall (role : tid -> string),
     (forall t, quiet_role (role t) = false) ->
@@ -72,10 +79,11 @@ Proof.
 Qed.
 Print Assumptions C18_no_interference_full_refuted.
 
-(* What does hold: the slot is only ever cleared (no transaction can observe a
-   context written by another one), and — regenerated from the source on every
-   run — no production code reads the slot at all, so no transaction's actions
-   depend on it. *)
+(* What does hold in this sequential model (which has no notion of WHOSE context
+   the slot holds): once the slot has been cleared every later Use sees nil, i.e.
+   nothing ever re-populates it, and — regenerated from the source on every run —
+   no production code reads the slot at all, so no transaction's actions depend on
+   it. The statement about overlapping transactions is 4' below. *)
 Theorem C18_interference_holds_outside_txctx :
   (forall ops, run false ops = map (fun _ => false) (run false ops)) /\
   txctx_readers = [].
@@ -86,10 +94,242 @@ Proof.
 Qed.
 Print Assumptions C18_interference_holds_outside_txctx.
 
-(* Non-vacuity of the discipline: a concrete valid trace in which the lock-set
-   premise holds. *)
+(* Non-vacuity of the lock-set theorem: a concrete VALID trace in which its premise
+   holds (and so its conclusion: the write is ordered before the read). *)
 Example C18_lockset_premise_satisfiable :
   let tr := [(1, AcqW "m"); (1, Write "x"); (1, RelW "m"); (2, AcqR "m"); (2, Read "x"); (2, RelR "m")]%string in
+  valid tr /\
   holdsW [(1, AcqW "m")]%string 1 "m"%string /\
-  holdsR [(1, AcqW "m"); (1, Write "x"); (1, RelW "m"); (2, AcqR "m")]%string 2 "m"%string.
-Proof. split; vm_compute; auto. Qed.
+  holdsR [(1, AcqW "m"); (1, Write "x"); (1, RelW "m"); (2, AcqR "m")]%string 2 "m"%string /\
+  hb tr 1 4.
+Proof.
+  cbv zeta.
+  assert (V : valid [(1, AcqW "m"); (1, Write "x"); (1, RelW "m"); (2, AcqR "m"); (2, Read "x"); (2, RelR "m")]%string).
+  { apply valid_b_sound. vm_compute. reflexivity. }
+  assert (W : holdsW [(1, AcqW "m")]%string 1 "m"%string) by (vm_compute; reflexivity).
+  assert (R : holdsR [(1, AcqW "m"); (1, Write "x"); (1, RelW "m"); (2, AcqR "m")]%string 2 "m"%string)
+    by (vm_compute; auto).
+  split; [exact V|]. split; [exact W|]. split; [exact R|].
+  exact (C18_lockset_sound "m"%string "x"%string 1 2 (Write "x"%string) (Read "x"%string)
+           [(1, AcqW "m")]%string [(1, RelW "m"); (2, AcqR "m")]%string [(2, RelR "m")]%string
+           V (fun H : 1 = 2 => ltac:(discriminate)) (or_intror (or_introl eq_refl))
+           (or_introl (conj W (or_intror R)))).
+Qed.
+
+(* ================================================================== *)
+(* Second discipline (audit 2026-09-29): see Lockset.v / Publication.v.
+   Hypotheses of [C18_tree_race_free_pub], all listed in props/C18.json:
+     H1' no event runs in role "init" (start-up is over);
+     H2' a role outside [multi_roles] is played by one goroutine (every bg: role
+         whose go statement can run more than once is IN multi_roles, computed by
+         the translator; "load" is in it too);
+     H3' the trace conforms to the facts (translator, trusted);
+     PP  the publication protocol of per-engine objects (Publication.pub_protocol).
+   Roles are per EVENT, locations are per OBJECT ([fld] gives the field name). *)
+
+(* 2'. The fields with a conflicting pair that is neither lock-protected nor
+   ordered by publication are exactly the recorded ones. *)
+Theorem C18_tree_racy_fields2 :
+  racy_fields2 multi_roles generation_fields consumer_roles accesses = expected_racy.
+Proof. vm_compute. reflexivity. Qed.
+Print Assumptions C18_tree_racy_fields2.
+
+(* 3'. Race freedom of every conforming trace that follows the publication
+   protocol - including the goroutine that builds and publishes a new engine
+   while transactions run ("also while flows are being reloaded"). *)
+Theorem C18_tree_race_free_pub :
+  forall (role_at : nat -> string) (fld : loc -> string)
+         (gen_of : loc -> option nat) (builder : nat -> tid) (is_pub : nat -> nat -> lock -> Prop)
+         (tr : trace),
+    (forall i, quiet_role2 (role_at i) = false) ->
+    (forall i j ti tj ei ej, nth_error tr i = Some (ti, ei) -> nth_error tr j = Some (tj, ej) ->
+        role_at i = role_at j -> mem (role_at i) multi_roles = false -> ti = tj) ->
+    valid tr -> conforms2 accesses role_at fld tr ->
+    pub_protocol generation_fields consumer_roles role_at fld gen_of builder is_pub tr ->
+    forall p1 t1 e1 p2 t2 e2 p3 x,
+      tr = p1 ++ (t1, e1) :: p2 ++ (t2, e2) :: p3 ->
+      t1 <> t2 -> is_access e1 x -> is_access e2 x -> racy_events e1 e2 ->
+      mem (fld x) expected_racy = false ->
+      hb tr (List.length p1) (List.length p1 + 1 + List.length p2).
+Proof.
+  intros role_at fld gen_of builder is_pub tr Hq Hs V C PP.
+  apply (discipline2_sound accesses multi_roles generation_fields consumer_roles expected_racy
+           role_at fld gen_of builder is_pub); try assumption.
+  vm_compute. reflexivity.
+Qed.
+Print Assumptions C18_tree_race_free_pub.
+
+(* The hypotheses are jointly satisfiable on the REAL facts: goroutine 1 handles
+   /load_flows - it adds an edge to a node of the new engine's flow graph in role
+   "load" (flow.(FlowGraphNode).addEdge), then, as "admin", publishes the engine
+   (routing.(StreamsData).setStream: Lock, write, Unlock); goroutine 2 is a
+   transaction that fetches the engine (getStream: RLock, read, RUnlock) and walks
+   the graph (flow.(FlowGraphNode).GetEdges). The theorem orders the two accesses
+   to the edges although they share no lock. *)
+Section PubExample.
+  Local Open Scope string_scope.
+  Let edges := "streams/flow.FlowGraphNode.edges".
+  Let ptr := "routing.StreamsData.stream".
+  Let lk := "routing.StreamsData.streamLock".
+  Let tr : trace :=
+    [ (1, Write edges); (1, AcqW lk); (1, Write ptr); (1, RelW lk);
+      (2, AcqR lk); (2, Read ptr); (2, RelR lk); (2, Read edges) ].
+  Let role_at (i : nat) : string :=
+    match i with 0 => "load" | 1 | 2 | 3 => "admin" | _ => "txn" end.
+  Let fld (x : loc) : string := x.
+  Let gen_of (x : loc) : option nat := if mem x generation_fields then Some 0 else None.
+  Let builder (g : nat) : tid := 1.
+  Let is_pub (g k : nat) (l : lock) : Prop := g = 0 /\ k = 3 /\ l = lk.
+
+  Lemma ex_quiet : forall i, quiet_role2 (role_at i) = false.
+  Proof. intros i. do 4 (destruct i as [|i]; [reflexivity|]). reflexivity. Qed.
+
+  Lemma ex_multi : forall i, mem (role_at i) multi_roles = true.
+  Proof. intros i. do 4 (destruct i as [|i]; [vm_compute; reflexivity|]). vm_compute. reflexivity. Qed.
+
+  Lemma ex_valid : valid tr.
+  Proof. apply valid_b_sound. vm_compute. reflexivity. Qed.
+
+  Lemma ex_conforms : conforms2 accesses role_at fld tr.
+  Proof. apply conforms_b_sound. vm_compute. reflexivity. Qed.
+
+  Lemma ex_protocol :
+    pub_protocol generation_fields consumer_roles role_at fld gen_of builder is_pub tr.
+  Proof.
+    constructor.
+    - intros x Hx. unfold gen_of, fld in *. rewrite Hx. eauto.
+    - intros g k l (-> & -> & ->). reflexivity.
+    - intros i t e x g N A G Gf L.
+      assert (i = 0) as ->.
+      { do 8 (destruct i as [|i]; [first [reflexivity | cbv in L; discriminate]|]).
+        cbn in N. destruct i; discriminate. }
+      cbn in N. inversion N; subst. split; [reflexivity|].
+      intros k l (_ & -> & _). auto with arith.
+    - intros j t e x g N A G Gf Cn Hne.
+      do 8 (destruct j as [|j];
+            [cbn in N; inversion N; subst; clear N;
+             first [ exfalso; apply Hne; reflexivity
+                   | destruct A as [A|[A|A]]; try discriminate; inversion A; subst;
+                     first [ vm_compute in Gf; discriminate | idtac ] ] |]).
+      2: { cbn in N. destruct j; discriminate. }
+      exists 3, lk, 4, (AcqR lk). unfold is_pub, builder in *.
+      repeat split; auto with arith. assert (g = 0) as ->.
+      { unfold gen_of in G. destruct (mem edges generation_fields); inversion G; reflexivity. }
+      reflexivity.
+  Qed.
+
+  Example C18_publication_hypotheses_satisfiable :
+    (forall i, quiet_role2 (role_at i) = false) /\
+    (forall i j ti tj ei ej, nth_error tr i = Some (ti, ei) -> nth_error tr j = Some (tj, ej) ->
+        role_at i = role_at j -> mem (role_at i) multi_roles = false -> ti = tj) /\
+    valid tr /\ conforms2 accesses role_at fld tr /\
+    pub_protocol generation_fields consumer_roles role_at fld gen_of builder is_pub tr /\
+    hb tr 0 7.
+  Proof.
+    assert (Hs : forall i j ti tj ei ej, nth_error tr i = Some (ti, ei) -> nth_error tr j = Some (tj, ej) ->
+        role_at i = role_at j -> mem (role_at i) multi_roles = false -> ti = tj).
+    { intros i j ti tj ei ej _ _ _ H. rewrite ex_multi in H. discriminate. }
+    split; [exact ex_quiet|]. split; [exact Hs|]. split; [exact ex_valid|].
+    split; [exact ex_conforms|]. split; [exact ex_protocol|].
+    change 7 with (List.length (@nil (tid * event)) + 1 +
+                   List.length [(1, AcqW lk); (1, Write ptr); (1, RelW lk); (2, AcqR lk); (2, Read ptr); (2, RelR lk)]).
+    apply (C18_tree_race_free_pub role_at fld gen_of builder is_pub tr ex_quiet Hs ex_valid ex_conforms ex_protocol
+             [] 1 (Write edges) _ 2 (Read edges) [] edges); try reflexivity.
+    - discriminate.
+    - right; left; reflexivity.
+    - left; reflexivity.
+  Qed.
+End PubExample.
+
+(* PP, mechanical part: at the publication site named in lockset/config.json
+   (routing.(StreamsData).setStream) the publishing function runs no load-role
+   code on the engine after the call that publishes it (regenerated every run). *)
+Theorem C18_tree_publication_order : publication_order_violations = [].
+Proof. reflexivity. Qed.
+Print Assumptions C18_tree_publication_order.
+
+(* 3b'. The atomic-step report is pinned by EQUALITY with the expected list
+   (Expected.v): a claim removed from lockset/config.json, or a body that is no
+   longer one critical section, breaks the build. *)
+Theorem C18_tree_atomic_steps_pinned : atomic_report = expected_atomic_report.
+Proof. vm_compute. reflexivity. Qed.
+Print Assumptions C18_tree_atomic_steps_pinned.
+
+(* The first discipline's hypotheses (C18_tree_race_free) are satisfiable on the
+   real facts too: the same two goroutines with one role each (an admin call that
+   publishes, a transaction that fetches). *)
+Example C18_first_discipline_hypotheses_satisfiable :
+  let lk := "routing.StreamsData.streamLock"%string in
+  let ptr := "routing.StreamsData.stream"%string in
+  let tr := [ (1, AcqW lk); (1, Write ptr); (1, RelW lk); (2, AcqR lk); (2, Read ptr); (2, RelR lk) ] in
+  let role := fun t : tid => if Nat.eqb t 1 then "admin"%string else "txn"%string in
+  (forall t, quiet_role (role t) = false) /\
+  (forall t1 t2, role t1 = role t2 -> mem (role t1) multi_roles = false -> t1 = t2) /\
+  valid tr /\ conforms accesses role tr /\ hb tr 1 4.
+Proof.
+  cbv zeta.
+  set (role := fun t : tid => if Nat.eqb t 1 then "admin"%string else "txn"%string).
+  assert (Hq : forall t, quiet_role (role t) = false).
+  { intros t. unfold role. destruct (Nat.eqb t 1); reflexivity. }
+  assert (Hm : forall t, mem (role t) multi_roles = true).
+  { intros t. unfold role. destruct (Nat.eqb t 1); vm_compute; reflexivity. }
+  split; [exact Hq|]. split.
+  { intros t1 t2 _ H. rewrite Hm in H. discriminate. }
+  split; [apply valid_b_sound; vm_compute; reflexivity|].
+  split.
+  - (* conformance to the first-discipline facts: roles per thread, locations = field names *)
+    assert (C2 : conforms2 accesses (fun i => match i with 0 | 1 | 2 => "admin" | _ => "txn" end)%string (fun x => x)
+                   [ (1, AcqW "routing.StreamsData.streamLock"); (1, Write "routing.StreamsData.stream");
+                     (1, RelW "routing.StreamsData.streamLock"); (2, AcqR "routing.StreamsData.streamLock");
+                     (2, Read "routing.StreamsData.stream"); (2, RelR "routing.StreamsData.streamLock") ]%string).
+    { apply conforms_b_sound. vm_compute. reflexivity. }
+    intros p t e s x E A.
+    destruct (C2 p t e s x E A) as (f & Inf & R & (y & Ay & Fy) & K & X & S).
+    exists f. split; [exact Inf|]. unfold justifies.
+    pose proof (access_field _ _ _ Ay A) as ->.
+    repeat split; try assumption.
+    + (* the role of the thread is the role of the index *)
+      rewrite R. clear - E A.
+      do 6 (destruct p as [|? p]; [cbn in E; inversion E; subst; clear E;
+              first [ reflexivity | destruct A as [A|[A|A]]; discriminate ] |]).
+      exfalso. apply (f_equal (@List.length _)) in E. rewrite app_length in E. cbn in E. lia.
+    + rewrite <- Fy. exact Ay.
+  - apply (hb_trans _ 1 2 4).
+    + apply (hb_po _ 1 2 1 (Write "routing.StreamsData.stream"%string) (RelW "routing.StreamsData.streamLock"%string));
+        [auto with arith|reflexivity|reflexivity].
+    + apply (hb_trans _ 2 3 4).
+      * apply (hb_sync _ 2 3 1 2 (RelW "routing.StreamsData.streamLock"%string) (AcqR "routing.StreamsData.streamLock"%string));
+          [auto with arith|reflexivity|reflexivity|reflexivity].
+      * apply (hb_po _ 3 4 2 (AcqR "routing.StreamsData.streamLock"%string) (Read "routing.StreamsData.stream"%string));
+          [auto with arith|reflexivity|reflexivity].
+Qed.
+
+(* ================================================================== *)
+(* 4'. Clause 4 with transaction identity (Model.run2): executions of one flow by
+   several transactions overlap. Full statement: what a transaction inside the flow
+   gets from the slot is what the slot was when it entered - no other
+   transaction's execution cleared or overwrote it. *)
+Definition C18_isolation_full : Prop :=
+  forall ops, iso_ok init2 ops = true.
+
+(* Refuted with OVERLAPPING executions: 1 and 2 are both inside the flow, 1
+   finishes (Flow.CleanExecution), 2 then finds the slot empty. *)
+Theorem C18_isolation_full_refuted : ~ C18_isolation_full.
+Proof.
+  intros H. specialize (H [Begin 1; Begin 2; Clean2 1; Use2 2]%Z).
+  vm_compute in H. discriminate.
+Qed.
+Print Assumptions C18_isolation_full_refuted.
+
+(* What holds: as long as no transaction leaves the flow while the slot is
+   populated and ANOTHER transaction is inside (a decidable condition on the
+   schedule: [no_overlap_clear]), every transaction gets what it entered with. *)
+Theorem C18_isolation_holds_outside_overlapping_clean :
+  forall ops, no_overlap_clear init2 ops = true -> iso_ok init2 ops = true.
+Proof. intros ops. apply iso_outside_overlap. exact init2_current. Qed.
+Print Assumptions C18_isolation_holds_outside_overlapping_clean.
+
+Example C18_isolation_side_condition_satisfiable :
+  no_overlap_clear init2 [Begin 1; Use2 1; Clean2 1; Begin 2; Use2 2; Clean2 2]%Z = true /\
+  run2 init2 [Begin 1; Use2 1; Clean2 1; Begin 2; Use2 2; Clean2 2]%Z = [(1, true); (2, false)]%Z.
+Proof. split; vm_compute; reflexivity. Qed.
